@@ -32,6 +32,8 @@ def run(cx):
     rf = cx.tlc("VMRun", cfg="VMRunFaithful.cfg", workers=4, name="vmrun_faithful")
     if "NoCut" not in rf.invariant_violated:
         raise vlib.Inconclusive("the pinned design (Faithful = TRUE) no longer violates NoCut: the invariant would be vacuous")
+    # the same invariants for ALL values of MaxRuns / Steps / MaxClones: inductive invariant checked by the proof system
+    cx.cover["tlaps_obligations_proved"] = cx.tlapm("VMRunProof")
     # ---- G: enumerate histories
     maxlen = 3
     cfg = "CONSTANTS MaxLen = %d\n MaxLate = %d\nINIT Init\nNEXT Next\nINVARIANT Emit\nCHECK_DEADLOCK FALSE\n" % (maxlen, 1 if cx.quick() else 2)
